@@ -248,6 +248,9 @@ func globalsHook(L *Loaded) []*Oblig {
 					}
 				}
 				// non-atomic direct uses of scalar counters
+				if _, isDbg := in.(*ssa.DebugRef); isDbg {
+					continue
+				}
 				for _, op := range in.Operands(nil) {
 					if op == nil || *op == nil {
 						continue
